@@ -47,7 +47,7 @@ REGISTRY = {
                           "`normalized` silently reverts to the callee's default normalisation"),
             P(optflow.rule_option_delivery, opts=("rehearse",), modules=("quimb.tensor",), rule="opt-deliver[rehearse]", floor=8,
               description="same for `rehearse` (a dropped rehearse flag performs the contraction instead of returning the plan)"),
-            P(optflow.rule_option_delivery, opts=("max_bond", "cutoff"), modules=("quimb.tensor.tnag.core",), rule="cap-delivery[local expectation]", floor=7),
+            P(optflow.rule_option_delivery, opts=("max_bond", "cutoff"), modules=("quimb.tensor.tnag.core",), rule="cap-delivery[local expectation]", floor=5),
             P(registries.rule_mode_total, specs=[
                 ("quimb.tensor.tn1d.core", "MatrixProductState.compute_local_expectation", "method"),
                 ("quimb.tensor.tnag.core", "TensorNetworkGenVector.partial_trace_exact", "get"),
